@@ -54,7 +54,7 @@ pub fn monitor(out: &RunOut) -> MonOut {
                     if others != cpairs {
                         m.viol(p, "R1", &site, format!("existing query of {} not kept intact in {}", l.service_url, x.uri));
                     }
-                    m.sig(format!("url:{}|q{}", l.service_url, cpairs.len()));
+                    m.sig(format!("url:{}|q{}|{:?}|life{}", l.service_url, cpairs.len(), x.kind, l.life.min(2)));
                 }
                 _ => m.viol(p, "R1", &site, format!("cannot split URL {} / {}", l.service_url, x.uri)),
             }
